@@ -36,7 +36,7 @@ def errSlotOk (c : Compiled) : Bool :=
 def wfStatic (d : Ty → Option Nat) : List SNode → Bool
   | [] => true
   | n :: rest =>
-    n.ins.all (fun t => (d t).isSome)
+    (n.lit.isSome || n.ins.all (fun t => (d t).isSome))
     && (!n.fallible ||
         ((laterOuts rest).all (fun t => !(d t).isSome || n.zero.contains t)
          && n.zero.all (fun t => !(d t).isSome || (laterOuts rest).contains t)))
